@@ -43,7 +43,8 @@ theorem iterDel_ok {del : ObjId → St → Res} (hdel : DelSpec sch del) (E : Ob
 theorem collAdd_ok {o : ObjId} {c : Attr} {items : List ObjId} {st st' : St} {cd : Side}
     (h : collAdd sch o c items st = .ok st') (hc : sch.side c = some cd) (hcd : cd.isColl = true)
     (ho : o < st.store.n) (hA : Agree sch st.store) (hR : Range st.store) :
-    Agree sch st'.store ∧ Range st'.store ∧ st'.store.n = st.store.n := by
+    Agree sch st'.store ∧ Range st'.store ∧ st'.store.n = st.store.n ∧ st'.store.alive = st.store.alive ∧
+      st'.store.ent = st.store.ent ∧ NewLinks sch st.store st'.store o c (· ∈ items) := by
   unfold collAdd at h
   split at h
   · cases h
@@ -70,7 +71,7 @@ theorem collAdd_ok {o : ObjId} {c : Attr} {items : List ObjId} {st st' : St} {cd
         obtain ⟨hH, hRf, hF, hM, hAl⟩ := iterSet_ok hrd hrd' hc' hcd o _ _ _ h1
         have hne : c ≠ sch.rev c := Schema.ne_of_kinds hc hrd (by simp [hcd, hrd'])
         have e1 := hasB_ref_eq (sch := sch) (s := st.store) hrd hrd'
-        refine ⟨?_, ?_, ?_⟩
+        refine ⟨?_, ?_, ?_, by simp only [St.setStore_store, Store.setRow]; exact hF.alive, by simp only [St.setStore_store, Store.setRow]; exact hF.ent, ?_⟩
         · intro p b q hp hal2 hh
           simp only [St.setStore_store, Store.setRow] at hp hal2
           rw [hF.n] at hp; rw [hF.alive] at hal2
@@ -100,12 +101,21 @@ theorem collAdd_ok {o : ObjId} {c : Attr} {items : List ObjId} {st st' : St} {cd
             have r3 := hnew x
             grind
         · simp only [St.setStore_store, Store.setRow]; exact hF.n
+        · intro p b q hh
+          simp only [St.setStore_store] at hh
+          rw [hasB_setRow hc hcd] at hh
+          have a2 := hH p b q
+          have a4 := hH o c q
+          have a6 := hnew q
+          have a7 := hnew p
+          rw [hrr] at a2 a4
+          grind [Schema.rev_rev, Schema.rev_inj]
       · -- many-to-many
         rename_i hcoll
         have hrd' : rd.isColl = true := by simpa using hcoll
         obtain ⟨hH, hRf, hF, hM, hAs⟩ := reverseAdd_ok hrd hrd' o _ _ _ h1
         have e1 := hasB_coll_eq (sch := sch) (s := st.store) hrd hrd'
-        refine ⟨?_, ?_, ?_⟩
+        refine ⟨?_, ?_, ?_, by simp only [St.setStore_store, Store.setRow]; exact hF.alive, by simp only [St.setStore_store, Store.setRow]; exact hF.ent, ?_⟩
         · intro p b q hp hal2 hh
           simp only [St.setStore_store, Store.setRow] at hp hal2
           rw [hF.n] at hp; rw [hF.alive] at hal2
@@ -134,6 +144,14 @@ theorem collAdd_ok {o : ObjId} {c : Attr} {items : List ObjId} {st st' : St} {cd
             have r3 := hnew x
             grind
         · simp only [St.setStore_store, Store.setRow]; exact hF.n
+        · intro p b q hh
+          simp only [St.setStore_store] at hh
+          rw [hasB_setRow hc hcd] at hh
+          have a2 := hH p b q
+          have a4 := hH o c q
+          have a6 := hnew q
+          have a7 := hnew p
+          grind [Schema.rev_rev, Schema.rev_inj]
     · cases h
 
 /-- `SetInstance.remove` -/
@@ -266,7 +284,8 @@ theorem setCollCore_ok {del : ObjId → St → Res} {isRev : Bool} {o : ObjId} {
     (hdel : DelSpec sch del)
     (h : setCollCore sch del isRev o c items st = .ok st') (hc : sch.side c = some cd) (hcd : cd.isColl = true)
     (ho : o < st.store.n) (hitems : ∀ x ∈ items, x < st.store.n) (hA : Agree sch st.store) (hR : Range st.store) :
-    Agree sch st'.store ∧ Range st'.store ∧ st'.store.n = st.store.n ∧ NewLinks sch st.store st'.store o c (· ∈ items) := by
+    Agree sch st'.store ∧ Range st'.store ∧ st'.store.n = st.store.n ∧ st'.store.ent = st.store.ent ∧
+      NewLinks sch st.store st'.store o c (· ∈ items) := by
   unfold setCollCore at h
   split at h
   · cases h
@@ -277,7 +296,7 @@ theorem setCollCore_ok {del : ObjId → St → Res} {isRev : Bool} {o : ObjId} {
       rw [hc] at hd; cases hd
       simp only at h
       split at h
-      · cases h; exact ⟨hA, hR, rfl, fun p b q hh => Or.inl hh⟩
+      · cases h; exact ⟨hA, hR, rfl, rfl, fun p b q hh => Or.inl hh⟩
       · obtain ⟨st2, h12, h2⟩ := Res.bind_ok h
         cases h2
         have hrr := sch.rev_rev c
@@ -311,7 +330,7 @@ theorem setCollCore_ok {del : ObjId → St → Res} {isRev : Bool} {o : ObjId} {
             have e1 := hasB_ref_eq (sch := sch) (s := st1.store) hrd hrd'
             have e0 := hasB_ref_eq (sch := sch) (s := st.store) hrd hrd'
             have e3 := hasB_coll_eq (sch := sch) (s := st1.store) hc hcd
-            refine ⟨?_, ?_, ?_, ?_⟩
+            refine ⟨?_, ?_, ?_, ?_, ?_⟩
             · intro p b q hp hal2 hh
               simp only [Store.setRow] at hp hal2
               rw [hF2.n, hS1.n] at hp; rw [hF2.alive] at hal2
@@ -352,6 +371,7 @@ theorem setCollCore_ok {del : ObjId → St → Res} {isRev : Bool} {o : ObjId} {
                 have := hS1.n
                 grind
             · simp only [Store.setRow]; rw [hF2.n, hS1.n]
+            · simp only [Store.setRow]; rw [hF2.ent, hS1.ent]
             · intro p b q hh
               rw [hasB_setRow hc hcd] at hh
               have a2 := hH2 p b q
@@ -364,7 +384,7 @@ theorem setCollCore_ok {del : ObjId → St → Res} {isRev : Bool} {o : ObjId} {
           · -- one-to-many, no cascade
             obtain ⟨hH1, hRf1, hF1, hM1, hAl1⟩ := iterClear_ok hrd hrd' hc' hcd _ _ _ h1
             have e0 := hasB_ref_eq (sch := sch) (s := st.store) hrd hrd'
-            refine ⟨?_, ?_, ?_, ?_⟩
+            refine ⟨?_, ?_, ?_, ?_, ?_⟩
             · intro p b q hp hal2 hh
               simp only [Store.setRow] at hp hal2
               rw [hF2.n, hF1.n] at hp; rw [hF2.alive, hF1.alive] at hal2
@@ -404,6 +424,7 @@ theorem setCollCore_ok {del : ObjId → St → Res} {isRev : Bool} {o : ObjId} {
                 have r4 := hitems x
                 grind
             · simp only [Store.setRow]; rw [hF2.n, hF1.n]
+            · simp only [Store.setRow]; rw [hF2.ent, hF1.ent]
             · intro p b q hh
               rw [hasB_setRow hc hcd] at hh
               have a2 := hH2 p b q
@@ -419,7 +440,7 @@ theorem setCollCore_ok {del : ObjId → St → Res} {isRev : Bool} {o : ObjId} {
           obtain ⟨st1, h1, h2⟩ := Res.bind_ok h12
           obtain ⟨hH1, hRf1, hF1, hM1, hAs1⟩ := reverseRemove_ok hrd hrd' o _ _ _ h1
           obtain ⟨hH2, hRf2, hF2, hM2, hAs2⟩ := reverseAdd_ok hrd hrd' o _ _ _ h2
-          refine ⟨?_, ?_, ?_, ?_⟩
+          refine ⟨?_, ?_, ?_, ?_, ?_⟩
           · intro p b q hp hal2 hh
             simp only [Store.setRow] at hp hal2
             rw [hF2.n, hF1.n] at hp; rw [hF2.alive, hF1.alive] at hal2
@@ -455,6 +476,7 @@ theorem setCollCore_ok {del : ObjId → St → Res} {isRev : Bool} {o : ObjId} {
               have r4 := hitems x
               grind
           · simp only [Store.setRow]; rw [hF2.n, hF1.n]
+          · simp only [Store.setRow]; rw [hF2.ent, hF1.ent]
           · intro p b q hh
             rw [hasB_setRow hc hcd] at hh
             have a2 := hH2 p b q
